@@ -16,6 +16,7 @@ import hashlib as _hl
 SFX = "" if REPO == "/repo" else "-" + _hl.md5(REPO.encode()).hexdigest()[:8]
 COPIA = TARGET + "/cli%s/release/copia" % SFX
 COPIA_DEV = TARGET + "/cli%s/debug/copia" % SFX
+COPIA_VG = TARGET + "/cli-vg%s/release/copia" % SFX
 VH = TARGET + "/vh%s/release/vh" % SFX
 VH_DEBUG = TARGET + "/vh%s/verif-debug/vh" % SFX
 SHIM = TARGET + "/libfsmon.so"
@@ -100,7 +101,7 @@ def workdir(tag):
     return d
 
 
-def run_vh(sub, tier, stage=None, profile="release", cases=None, extra=(), sd=None, timeout=7200):
+def run_vh(sub, tier, stage=None, profile="release", cases=None, extra=(), sd=None, timeout=7200, env_extra=None):
     exe = VH if profile == "release" else VH_DEBUG
     wd = workdir("vh-" + sub)
     cmd = [exe, sub, "--seed", str(seed() if sd is None else sd), "--tier", tier, "--work", wd, "--profile", profile]
@@ -110,6 +111,8 @@ def run_vh(sub, tier, stage=None, profile="release", cases=None, extra=(), sd=No
         cmd += ["--cases", str(cases)]
     cmd += list(extra)
     env = dict(os.environ, COPIA_BIN=COPIA, RUST_BACKTRACE="0")
+    if env_extra:
+        env.update(env_extra)
     try:
         r = subprocess.run(cmd, stdout=subprocess.PIPE, stderr=subprocess.PIPE, env=env, timeout=timeout)
     finally:
@@ -123,6 +126,52 @@ def run_vh(sub, tier, stage=None, profile="release", cases=None, extra=(), sd=No
         print("HARNESS-ERROR: harness panic in %s" % sub)
         sys.exit(2)
     return json.loads(r.stdout.decode())
+
+
+def run_vh_miri(sub, shards=16, cases=3, stage="lib", timeout=1500):
+    """The same harness under Miri (UB + data-race interpreter), tiny workloads, sharded over cores.
+    Returns (list of vh JSON reports, list of (signature, detail) for interpreter errors, skipped_reason)."""
+    from concurrent.futures import ThreadPoolExecutor
+    hs = TARGET + "/harness-src" + SFX
+    if not os.path.isdir(hs):
+        build("vh")
+    env = dict(os.environ, VERIF_REPO=REPO, CARGO_TARGET_DIR=TARGET + "/vh-miri" + SFX, CARGO_NET_OFFLINE="true",
+               MIRIFLAGS="-Zmiri-disable-isolation -Zmiri-tree-borrows -Zmiri-ignore-leaks", RUST_BACKTRACE="0")
+    # build once (also builds the Miri sysroot, offline)
+    b = subprocess.run(["cargo", "+nightly", "miri", "run", "--offline", "-q", "--", "c18", "--tiny", "--cases", "1", "--threads", "1"], cwd=hs, env=env, stdout=subprocess.PIPE, stderr=subprocess.PIPE, timeout=timeout)
+    if b.returncode != 0 and b"Undefined Behavior" not in b.stderr:
+        return [], [], "miri unavailable: " + b.stderr.decode("utf-8", "replace")[-300:]
+
+    def one(i):
+        wd = workdir("miri-%s-%d" % (sub, i))
+        cmd = ["cargo", "+nightly", "miri", "run", "--offline", "-q", "--", sub, "--tiny", "--cases", str(cases), "--stage", stage, "--threads", "1", "--seed", str(seed() * 1000 + i), "--work", wd]
+        try:
+            r = subprocess.run(cmd, cwd=hs, env=env, stdout=subprocess.PIPE, stderr=subprocess.PIPE, timeout=timeout)
+        except subprocess.TimeoutExpired:
+            return None, None
+        finally:
+            shutil.rmtree(wd, ignore_errors=True)
+        err = r.stderr.decode("utf-8", "replace")
+        rep = None
+        try:
+            rep = json.loads(r.stdout.decode())
+        except Exception:
+            pass
+        bad = None
+        if "Undefined Behavior" in err or "Data race" in err or "data race" in err:
+            first = [l for l in err.splitlines() if l.startswith("error")][:1]
+            where = [l.strip() for l in err.splitlines() if l.strip().startswith("--> ")][:1]
+            bad = ("miri|%s" % (first[0][:80] if first else "error"), {"shard": i, "where": where, "stderr_tail": err[-1500:]})
+        return rep, bad
+
+    reps, bads = [], []
+    with ThreadPoolExecutor(NCPU) as ex:
+        for rep, bad in ex.map(one, range(shards)):
+            if rep:
+                reps.append(rep)
+            if bad:
+                bads.append(bad)
+    return reps, bads, None
 
 
 class Result:
